@@ -103,6 +103,11 @@ def stale_reference_classes(case: Any) -> List[Tuple[str, int]]:
                 if how and ent and ent[0] == 'def' and (ent[1], ent[2]) in rx and rx[(ent[1], ent[2])]['R'] != mi:
                     if how in ('from:%d' % ent[1], 'star:%d' % ent[1]):
                         out.append((key, pos))       # incl. the renamed, superseded duplicate of such a class
+                        continue
+                # ... or reaches it through SOME module's import of it from the defining module under the old name
+                # (e.g. `import R` + `class V(R.x)` where R, besides re-exporting x as n, also does `from D import x`)
+                if any(P.via_of(case, fn, mi, b, r)[0] in ('chain-from-D', 'chain-star-D') for r in rx.values()):
+                    out.append((key, pos))
     return out
 
 
@@ -113,8 +118,10 @@ def stale_query(case: Any, fn: List[str], rx: Dict[Tuple[int, str], Any], scope:
     if mi is None:
         return False
     how, ent = P.denote(case, fn, mi, ident.split('.')[0])
-    return bool(how and ent and ent[0] == 'def' and (ent[1], ent[2]) in rx and rx[(ent[1], ent[2])]['R'] != mi
-                and how in ('from:%d' % ent[1], 'star:%d' % ent[1]))
+    if how and ent and ent[0] == 'def' and (ent[1], ent[2]) in rx and rx[(ent[1], ent[2])]['R'] != mi \
+            and how in ('from:%d' % ent[1], 'star:%d' % ent[1]):
+        return True
+    return any(P.via_of(case, fn, mi, ident, r)[0] in ('chain-from-D', 'chain-star-D') for r in rx.values())
 
 
 def alias_assignment_classes(case: Any) -> List[Tuple[str, int]]:
@@ -174,7 +181,8 @@ def root_causes(case: Any, orders: List[List[int]], dumps: List[Any]) -> Optiona
         if x[:4] != y[:4]:
             return None
         if x[0] == 'Class':
-            for pos, (p, q) in enumerate(zip(x[5], y[5])):
+            # a base differs when the object it finally resolves to differs, or (both unresolved) the expanded name shown
+            for pos, (p, q) in enumerate(zip(zip(x[4], x[5]), zip(y[4], y[5]))):
                 if p != q:
                     out.append((k, pos))
     return out
